@@ -17,6 +17,7 @@ from refurb.checks.common import (
     is_mapping,
     is_name_unused_in_contexts,
     stringify,
+    stringify_operand,
 )
 from refurb.error import Error
 
@@ -86,7 +87,7 @@ def check_unused_key_or_value(
     dict_expr: Expression,
 ) -> None:
     if is_name_unused_in_contexts(key, contexts):
-        msg = f"Key is unused, use `for {stringify(value)} in {stringify(dict_expr)}.values()` instead"  # noqa: E501
+        msg = f"Key is unused, use `for {stringify(value)} in {stringify_operand(dict_expr, '.')}.values()` instead"  # noqa: E501
 
         errors.append(ErrorInfo.from_node(key, msg))
 
